@@ -370,6 +370,24 @@ func (hs *headerSession) step(t *chaingen.Node) error {
 		hs.sideTips = append(hs.sideTips, ext[len(ext)-1])
 		return hs.send("fork-return", pi, batch)
 
+	case k >= 66 && k < 72 && t.Height >= 4:
+		// A message that is not one chain: one or two headers of a fork,
+		// followed by headers that do not build on them (the client's own
+		// headers above the fork, possibly one more on top), so that the work
+		// summed over the whole message exceeds what the fork would displace
+		// while the linked part alone does not.
+		d := 2 + r.Intn(int(min(int32(6), t.Height-1)))
+		f := t.Ancestor(t.Height - int32(d))
+		nb := 1
+		if d > 2 && r.Intn(2) == 0 {
+			nb = 2
+		}
+		br := g.Extend(f, nb, hs.randPace())
+		pad := append([]*chaingen.Node{}, t.Path()[int(f.Height)+nb+1:]...)
+		pad = append(pad, hs.honestRun(t, 1+r.Intn(2))...)
+		hs.sideTips = append(hs.sideTips, br[len(br)-1])
+		return hs.send("fork-unlinked", pi, append(br, pad...))
+
 	case k < 80: // fork
 		if t.Height < 1 {
 			return hs.send("ext", pi, hs.honestRun(t, 1))
